@@ -8,7 +8,7 @@ BF == INSTANCE Bcrypt
 Y == INSTANCE Yescrypt
 GSL == INSTANCE Gensalt
 T == ndJsonDeserialize(IOEnv.XCV_TRACE)
-VARIABLES l, viol, cnt
+VARIABLES l, viol, div, cnt
 V(p, n) == [l |-> l, p |-> p, n |-> n]
 Enabled == S!AllMethods
 IsHashEv(e) == e \in {"crypt_rn", "crypt_r", "xcrypt_r", "crypt", "fcrypt", "xcrypt", "crypt_ra"}
@@ -53,23 +53,28 @@ JudgeY(ev) ==
   ELSE LET d == IF o.m = "scrypt" THEN Y!Decode7(ev.s) ELSE Y!DecodeY(ev.s, IF o.m = "yescrypt" THEN 3 ELSE 4)
            k == Y!Kdf(ev.aux) IN
        IF ~d.ok THEN {}                                   \* (numerals of three or more characters: not evaluated)
-       ELSE IF ~k.ok THEN {V("C02", "YescryptNoKdf")}
+       ELSE IF ~k.ok THEN {V("DIV", "YescryptNoKdf")}
        ELSE (IF <<k.flags, k.N, k.r, k.p, k.t, k.g>> = <<d.flags, d.N, d.r, d.p, d.t, d.g>> THEN {} ELSE {V("C02", "YescryptParams")})
             \* (the recorder keeps the first 160 hook events of a call: with more lanes than that, the recorded
             \* invocations must be the leading part of the schedule)
             \cup (LET ob == Y!Observed(ev.aux)  sc == Y!Schedule(d) IN
                   IF (IF "auxdrop" \in DOMAIN ev /\ ev.auxdrop > 0
                       THEN Len(ob) <= Len(sc) /\ ob = SubSeq(sc, 1, Len(ob)) ELSE ob = sc)
-                  THEN {} ELSE {V("C02", "YescryptSchedule")})
+                  \* (how the work is split into smix invocations is the implementation's business as long as the hash is
+                  \* the released one: a disagreement with Yescrypt!Schedule is a model divergence, not a violation)
+                  THEN {} ELSE {V("DIV", "YescryptSchedule")})
             \cup (LET lastd == S!LastIndexOf(ev.s, 36, d.saltstart)
                        saltstr == SubSeq(ev.s, d.saltstart, IF lastd = 0 THEN Len(ev.s) ELSE lastd - 1) IN
                   IF o.m = "scrypt" THEN (IF k.salt = saltstr THEN {} ELSE {V("C02", "YescryptSalt")})
                   ELSE (IF GSL!Enc64LE(k.salt) = saltstr THEN {} ELSE {V("C02", "YescryptSalt")}))
-Init == l = 1 /\ viol = {} /\ cnt = 0
+Init == l = 1 /\ viol = {} /\ div = {} /\ cnt = 0
 Next == /\ l <= Len(T) /\ l' = l + 1
         /\ IF IsHashEv(T[l].e) /\ T[l].pnull = 0 /\ T[l].snull = 0
-             THEN viol' = viol \cup Judge(T[l]) \cup JudgeAux(T[l]) \cup JudgeBfUse(T[l]) \cup JudgeY(T[l]) /\ cnt' = cnt + 1
-             ELSE UNCHANGED <<viol, cnt>>
-Spec == Init /\ [][Next]_<<l, viol, cnt>>
-Finish == l <= Len(T) \/ JsonSerialize(IOEnv.XCV_VERDICT, [consumed |-> l - 1, lines |-> Len(T), viol |-> viol, div |-> {}, cnt |-> [calls |-> cnt]])
+             THEN LET all == Judge(T[l]) \cup JudgeAux(T[l]) \cup JudgeBfUse(T[l]) \cup JudgeY(T[l]) IN
+                  /\ viol' = viol \cup {x \in all : x.p # "DIV"}
+                  /\ div' = div \cup {[l |-> x.l, d |-> x.n] : x \in {y \in all : y.p = "DIV"}}
+                  /\ cnt' = cnt + 1
+             ELSE UNCHANGED <<viol, div, cnt>>
+Spec == Init /\ [][Next]_<<l, viol, div, cnt>>
+Finish == l <= Len(T) \/ JsonSerialize(IOEnv.XCV_VERDICT, [consumed |-> l - 1, lines |-> Len(T), viol |-> viol, div |-> div, cnt |-> [calls |-> cnt]])
 =============================================================================
